@@ -26,6 +26,7 @@ ASSUMPTIONS = [
     "pin-project's projection is a field access",
 ]
 RULES = {
+    "C19.ORIGIN": "every value the wrapper returns is the inner value's own result of this call, or Pending caused by the deadline / inner value: nothing is fabricated (no fusing, no synthetic end)",
     "C19.GATE": "deadline polled only in the initial state; inner polled only in a non-initial state",
     "C19.LATCH": "state leaves the initial value only after deadline->Ready in this call, on every such path before returning, never back",
     "C19.SAME": "every path from deadline->Ready polls the inner value before returning",
@@ -203,4 +204,26 @@ def check_one(ctx, M, kind, adt, ext_trait, tr, meth):
             ctx.check(good and g2, "C19.PASS", where, "inner Ready(v) => Ready(v) with the same v", site=s.where, path=common.fmt_blocks(bi, bad))
         else:
             ctx.fail("C19.PASS", where, "inner poll result is neither returned directly nor matched on Ready/Pending", site=s.where)
+    # ---------------------------------------------------------------- ORIGIN: nothing is fabricated
+    from . import flow
+    dl_pend = [ed for s in dl for ed in bi.outcome_edges(s, "Pending")]
+    in_pend = [ed for s in inner for ed in bi.outcome_edges(s, "Pending")]
+    for blk, kind, payload, t in flow.returned_values(bi):
+        if t[0] == "call" and any(t[3] == s.block for s in inner):
+            ctx.ok("C19.ORIGIN", where, "returns the inner poll result itself", sample={"at": bi.describe(blk)})
+            continue
+        if kind == "Pending":
+            ok = bi.guarded_by(blk, dl_pend + in_pend)
+            ctx.check(ok, "C19.ORIGIN", where, "Pending is returned only because the deadline or the inner value returned Pending", site=bi.describe(blk))
+            continue
+        ok = False
+        for s in inner:
+            if kind == "Ready" and payload is not None and flow.is_payload(payload, s.block, "Ready"):
+                ok = True
+            elif kind in ("Ready(Some)", "Ready(None)"):
+                lab = kind[6:-1]
+                eds = bi.outcome_edges(s, "Ready", lab)
+                if eds and bi.guarded_by(blk, eds) and (lab == "None" or (payload is not None and flow.is_payload(payload, s.block, "Ready", "Some"))):
+                    ok = True
+        ctx.check(ok, "C19.ORIGIN", where, "a %s value is returned only as the inner value's own result of this call" % kind, site=bi.describe(blk))
     return nstates, ntrans, samples
